@@ -25,7 +25,7 @@ RULE = ('each run = update history (as C03) followed, after every successful upd
         'non-trivial = at least one idempotence check or twin comparison happened; distinct = distinct seam '
         'event-log digest')
 PLAN = {'quick': {'n': 6000, 'budget_s': 90, 'block': 25},
-        'thorough': {'n': 60000, 'budget_s': 1200, 'block': 150}}
+        'thorough': {'n': 300000, 'budget_s': 2400, 'block': 150}}
 ASSUMPTIONS = ['write events are observed at the seam (open for writing, unlink, rename), so the check is independent of the real clock',
                'canonical twins exclude duplicate entries (which duplicate is kept legitimately depends on entry order) and several Manifests per directory (outside the statement)']
 
